@@ -1,6 +1,8 @@
 """C11 — in-place operations only change the array they are applied to."""
 from __future__ import annotations
 
+import random
+
 import re
 import warnings
 
@@ -177,6 +179,7 @@ def run(chk: Check):
                 "(a derivation that returned the target object itself counts as the target), and the source ndarray with its original")
     chk.assumptions = ["collection identity is Python object identity: x[:] / x[...] / asarray(x) return x itself and therefore track it (DESIGN F9)"]
     chk.run_proofs()
+    model_family(chk, da)
     n = 4000 if chk.tier == "thorough" else 400
     for hid in range(n):
         run_history(chk, da, chk.rng, hid)
@@ -184,3 +187,248 @@ def run(chk: Check):
 
 def replay(path):
     print(open(path).read())
+
+
+# ==========================================================================
+# Model correspondence (coq/theories/Mutation.v): pointer / cache evolution of real collections, and the
+# 1-D denotation of slice assignment
+import dask  # noqa: E402
+
+from common import cbool, clist, coq_eval_cases, copt, cslice, ctuple, cz  # noqa: E402
+
+M_HEADER = "From DA Require Import PyBase Mutation.\nOpen Scope Z_scope.\n"
+H_CASE = "list op * list (list (nat * (bool * bool * bool * bool) * Z))"
+H_CHK = "Definition chk (c : " + H_CASE + ") : bool := let '(ops, real) := c in trace_ok 1%positive ops real."
+D_CASE = "list Z * pslice * value * list Z"
+D_CHK = "Definition chk (c : " + D_CASE + ") : bool := let '(x, k, v, r) := c in zlist_eqb (setitem_den x k v) r."
+
+DKINDS = {
+    "DSliceAll": lambda x, da: x[:], "DEllipsis": lambda x, da: x[...], "DAsarray": lambda x, da: da.asarray(x),
+    "DAstypeSame": lambda x, da: x.astype(x.dtype), "DAdd1": lambda x, da: x + 1, "DUAdd1": lambda x, da: da.add(x, 1),
+    "DNeg": lambda x, da: -x, "DStep2": lambda x, da: x[::2],
+}
+SET_KEYS = {1: slice(None, None, 2), 2: slice(0, 1), 3: slice(None)}
+CACHE_ATTRS = ("_lowered_expr", "_lowered_expr_optimize_graph", "_cached_dask_keys", "_optimized")
+
+
+class SkipHistory(Exception):
+    pass
+
+
+def gen_ops(rng, n):
+    ops, nh = [], 1
+    for _ in range(n):
+        kind = rng.choice(["Derive", "Derive", "SetItem", "SetItem", "SetMask", "UfuncOut", "ComputeChunkSizes", "Compute", "Compute", "Keys", "Optimize"])
+        h = rng.randrange(nh)
+        if kind == "Derive":
+            ops.append(("Derive", h, rng.choice(sorted(DKINDS))))
+            nh += 1
+        elif kind == "SetItem":
+            ops.append(("SetItem", h, rng.choice([1, 2, 3]), rng.choice([1, 2, 3])))
+        elif kind == "SetMask":
+            ops.append(("SetMask", h, rng.randint(-3, 6), rng.choice([0, 50])))
+        elif kind == "UfuncOut":
+            ops.append(("UfuncOut", h, rng.randrange(nh)))
+        elif kind == "Compute":
+            ops.append(("Compute", h, rng.random() < 0.7))
+        elif kind == "Optimize":
+            ops.append(("Optimize", h))
+            nh += 1
+        else:
+            ops.append((kind, h))
+    return ops
+
+
+def replay_ops(da, ops, src, chunks):
+    """run the ops on real collections; returns (coq op literals, observed trace, final values per handle, mirror values)"""
+    H = [da.from_array(src, chunks=chunks)]
+    names = {}
+    lits, trace = [], []
+    for op in ops:
+        kind = op[0]
+        with warnings.catch_warnings():
+            warnings.simplefilter("ignore")
+            if kind == "Derive":
+                H.append(DKINDS[op[2]](H[op[1]], da))
+                lits.append(f"Derive {op[1]}%nat {op[2]}")
+            elif kind == "SetItem":
+                H[op[1]][SET_KEYS[op[2]]] = 10 * op[3]
+                lits.append(f"SetItem {op[1]}%nat {op[2]}%positive {op[3]}%positive")
+            elif kind == "SetMask":
+                x = H[op[1]]
+                x[x > op[2]] = op[3]
+                lits.append(f"SetMask {op[1]}%nat {cz(op[2])} {cz(op[3])}")
+            elif kind == "UfuncOut":
+                da.add(H[op[1]], 1, out=H[op[2]])
+                lits.append(f"UfuncOut {op[1]}%nat {op[2]}%nat")
+            elif kind == "ComputeChunkSizes":
+                H[op[1]].compute_chunk_sizes()
+                lits.append(f"ComputeChunkSizes {op[1]}%nat")
+            elif kind == "Compute":
+                with dask.config.set({"array.optimize-graph": op[2]}):
+                    H[op[1]].compute(scheduler="sync")
+                lits.append(f"Compute {op[1]}%nat {cbool(op[2])}")
+            elif kind == "Keys":
+                H[op[1]].__dask_keys__()
+                lits.append(f"Keys {op[1]}%nat")
+            elif kind == "Optimize":
+                x = H[op[1]]
+                y = x.optimize()
+                H.append(y)
+                if y is x or y.expr._name == x.expr._name:
+                    lits.append(f"Optimize {op[1]}%nat None")
+                elif y.expr._name in names:
+                    # optimization landed on an expression the history already built (e.g. a no-op slice simplified away):
+                    # lowering is not modelled, ELower can only name NEW expressions
+                    raise SkipHistory()
+                else:
+                    o = names.setdefault(y.expr._name, len(names) + 1)
+                    lits.append(f"Optimize {op[1]}%nat (Some {o}%positive)")
+        row = []
+        for x in H:
+            first = next(i for i, y in enumerate(H) if y is x)
+            flags = tuple(a in x.__dict__ for a in CACHE_ATTRS)
+            nid = names.setdefault(x.expr._name, len(names) + 1)
+            row.append((first, flags, nid))
+        trace.append(row)
+    return lits, trace, H
+
+
+def np_replay(ops, src):
+    """the same history on NumPy values: every derived handle holds the VALUE it had when derived (a copy); the
+    identity-returning derivations (and optimize() of an already optimized object) share the object"""
+    H = [{"v": src.copy(), "opt": False}]
+    for op in ops:
+        kind = op[0]
+        if kind == "Derive":
+            o = H[op[1]]
+            x = o["v"]
+            H.append(o if op[2] in ("DSliceAll", "DEllipsis", "DAsarray", "DAstypeSame") else
+                     {"v": {"DAdd1": x + 1, "DUAdd1": x + 1, "DNeg": -x, "DStep2": x[::2].copy()}[op[2]], "opt": False})
+        elif kind == "SetItem":
+            H[op[1]]["v"][SET_KEYS[op[2]]] = 10 * op[3]
+        elif kind == "SetMask":
+            x = H[op[1]]["v"]
+            x[x > op[2]] = op[3]
+        elif kind == "UfuncOut":
+            H[op[2]]["v"] = H[op[1]]["v"] + 1
+        elif kind == "Optimize":
+            o = H[op[1]]
+            H.append(o if o["opt"] else {"v": o["v"].copy(), "opt": True})
+    return [o["v"] for o in H]
+
+
+def model_family(chk, da):
+    rng = random.Random(f"{chk.pid}-model-family-{chk.seed}")     # own stream: the checks above keep theirs
+    # replay of the witness of C11_optimized_flag_stale_refuted on the real code
+    with warnings.catch_warnings():
+        warnings.simplefilter("ignore")
+        y = da.from_array(np.arange(6), chunks=3).optimize()
+        y[::2] = 10
+        w = {"optimized_marker_kept": "_optimized" in y.__dict__, "caches_dropped": "_lowered_expr" not in y.__dict__,
+             "optimize_returns_self": y.optimize() is y, "root": type(y.expr).__name__,
+             "value_ok": bool(np.array_equal(y.compute(scheduler="sync"), [10, 1, 10, 3, 10, 5]))}
+    chk.extra["optimized_flag_stale_witness"] = w
+    chk.count("witness:stale-_optimized-marker:" + ("reproduced" if w["optimized_marker_kept"] and w["caches_dropped"] and w["optimize_returns_self"] else "not-reproduced"))
+    if not w["value_ok"]:
+        chk.violation("assignment to an optimized collection computes a wrong value", w, signature={"class": "target", "last_op": "setitem"})
+    n = 3000 if chk.tier == "thorough" else 160
+    cases, descs = [], []
+    for hid in range(n):
+        size = rng.choice([1, 3, 6, 7])
+        src = (np.arange(size, dtype="int64") * 3) % 7 - 2
+        chunks = (progs.rand_chunks_for(rng, size),)
+        ops = gen_ops(rng, rng.choice([3, 5, 8, 10]))
+        # keep the history inside the domain where every op is defined: out= needs equal shapes
+        shapes = [size]
+        ok_ops = []
+        for op in ops:
+            if op[0] == "Derive":
+                s = shapes[op[1]]
+                shapes.append((s + 1) // 2 if op[2] == "DStep2" else s)
+            elif op[0] == "Optimize":
+                shapes.append(shapes[op[1]])
+            elif op[0] == "UfuncOut" and shapes[op[1]] != shapes[op[2]]:
+                continue
+            ok_ops.append(op)
+        ops = ok_ops
+        for op in ops:
+            chk.count("model-op:" + op[0])
+        try:
+            lits, trace, H = replay_ops(da, ops, src, chunks)
+        except SkipHistory:
+            chk.count("model-history-skipped:optimize-lands-on-known-expression")
+            continue
+        except Exception as e:  # noqa: BLE001
+            chk.violation(f"a history of in-place operations raises {type(e).__name__}: {str(e)[:100]}", {"ops": ops, "size": size, "chunks": chunks},
+                          signature={"class": "model-history-raises", "error": err_sig(e)})
+            continue
+        chk.case(("model-history", size, chunks, tuple(ops)), nontrivial=len(ops) > 2,
+                 sample={"ops": ops} if hid < 2 else None)
+        cases.append(ctuple("[" + "; ".join(lits) + "]",
+                            "[" + "; ".join("[" + "; ".join(ctuple(f"{a}%nat", ctuple(*map(cbool, f)), cz(nid)) for a, f, nid in row) + "]"
+                                            for row in trace) + "]"))
+        descs.append({"ops": ops, "size": size, "chunks": chunks, "trace": trace})
+        # property side, independent of the model: final values against a NumPy replay with value-copy semantics
+        want = np_replay(ops, src)
+        if want is not None:
+            bad = None
+            for i, (x, w) in enumerate(zip(H, want)):
+                with warnings.catch_warnings():
+                    warnings.simplefilter("ignore")
+                    got = x.compute(scheduler="sync")
+                if not np.array_equal(got, w):
+                    bad = i
+                    break
+            if bad is not None:
+                chk.violation(f"handle {bad} does not hold the value NumPy gives for the same history (copies at derivation)",
+                              {"ops": ops, "size": size, "chunks": chunks}, signature={"class": "model-history-value"})
+            else:
+                chk.traces_validated += 1
+    for i in coq_eval_cases(M_HEADER, H_CASE, H_CHK, cases, chunk=60)[0]:
+        chk.tie_break("mutation-model", {"case": descs[i], "literal": cases[i][:800]})
+    chk.traces_validated += len(cases)
+
+    # 1-D denotation of slice assignment: dask's x[k] = v against setitem_den, exactly
+    dcases, ddescs = [], []
+    m = 6000 if chk.tier == "thorough" else 500
+    for it in range(m):
+        size = rng.choice([0, 1, 2, 3, 5, 8])
+        bound = size + 2
+        k = slice(rng.choice([None, rng.randint(-bound, bound)]), rng.choice([None, rng.randint(-bound, bound)]),
+                  rng.choice([None, 1, 2, 3, -1, -2, -3]))
+        scalar = rng.random() < 0.4
+        if it == 0:      # corpus: finding C11-A
+            size, k, scalar = 2, slice(0, 1, -1), False
+        src = (np.arange(size, dtype="int64") * 5) % 11 - 3
+        sel = list(range(*k.indices(size)))
+        if scalar:
+            v, vl = rng.randint(-9, 9) + 100, None
+        else:
+            vl = [100 + i for i in range(len(sel))]
+            v = np.array(vl, dtype="int64")
+        chk.count("setitem-den:" + ("scalar" if vl is None else "seq") + (":neg-step" if (k.step or 1) < 0 else ""))
+        x = da.from_array(src.copy(), chunks=(progs.rand_chunks_for(rng, size),))
+        try:
+            with warnings.catch_warnings():
+                warnings.simplefilter("ignore")
+                x[k] = v
+                got = x.compute(scheduler="sync")
+        except Exception as e:  # noqa: BLE001
+            chk.count("setitem-den:raises:" + err_sig(e)[:24])
+            chk.violation(f"1-D slice assignment that NumPy accepts raises {type(e).__name__}: {str(e)[:100]}",
+                          {"size": size, "key": str(k), "value": vl if vl is not None else v},
+                          signature={"class": "setitem-den-raises", "empty_neg_step": (k.step or 1) < 0 and not sel, "error": err_sig(e)})
+            continue
+        want = src.copy()
+        want[k] = v
+        chk.case(("setitem-den", size, (k.start, k.stop, k.step), vl), nontrivial=len(sel) > 0)
+        if not np.array_equal(got, want):
+            chk.violation("1-D slice assignment differs from NumPy", {"size": size, "key": str(k), "value": vl if vl is not None else v},
+                          signature={"class": "setitem-den-value", "neg_step": (k.step or 1) < 0})
+            continue
+        dcases.append(ctuple(clist(src), cslice(k), f"(Scalar {cz(v)})" if vl is None else f"(Seq {clist(vl)})", clist(got)))
+        ddescs.append({"size": size, "key": str(k), "value": vl if vl is not None else v})
+    for i in coq_eval_cases(M_HEADER, D_CASE, D_CHK, dcases)[0]:
+        chk.tie_break("setitem_den-model", {"case": ddescs[i], "literal": dcases[i]})
+    chk.traces_validated += len(dcases)
